@@ -15,6 +15,10 @@ Section C12.
   Variable sched : list row.                            (* any schedule *)
   Variable I : nat.
   Variable exchange : bool.
+  (* the pipes: FIFO queues holding at most `cap` messages (a sender finding the queue full blocks), or
+     unbounded ones; at least one message must fit *)
+  Variable cap : option nat.
+  Hypothesis cap_ge_1 : match cap with Some c => 1 <= c | None => True end.
 
   Notation lst := (@lst N St G).
   Notation msg := (@msg N St).
@@ -30,16 +34,18 @@ Section C12.
          they are part of the final local states -- does not depend on the interleaving). *)
   Theorem c12_every_interleaving : forall (ls : list lst) P,
     run_defined sched I exchange (length ls) P ->
-    gpath _ nat (step lst msg) (init ls P) (steps (length ls) 0 P) (final ls P) /\
+    gpath _ nat (step lst msg cap) (init ls P) (steps (length ls) 0 P) (final ls P) /\
     all_done lst msg (final ls P) = true /\
-    forall k u, gpath _ nat (step lst msg) (init ls P) k u ->
+    forall k u, gpath _ nat (step lst msg cap) (init ls P) k u ->
       k <= steps (length ls) 0 P /\
-      (gterminal _ nat (step lst msg) u -> k = steps (length ls) 0 P /\ u = final ls P).
+      (gterminal _ nat (step lst msg cap) u -> k = steps (length ls) 0 P /\ u = final ls P).
   Proof.
     intros ls P [_ Hok].
-    destruct (canonical_run St G steq misfit expo draw trans sched I exchange ls P Hok) as [H1 H2].
+    assert (cap1 : room msg cap [] = true).
+    { unfold room. destruct cap as [c|]; [|reflexivity]. apply Nat.ltb_lt. simpl. exact cap_ge_1. }
+    destruct (canonical_run St G steq misfit expo draw trans sched I exchange cap cap1 ls P Hok) as [H1 H2].
     split; [exact H1|]. split; [exact H2|].
-    exact (all_interleavings St G steq misfit expo draw trans sched I exchange ls P Hok).
+    exact (all_interleavings St G steq misfit expo draw trans sched I exchange cap cap1 ls P Hok).
   Qed.
 
   (* At a scheduled exchange the pair (slave a, master b) exactly swaps its states when
@@ -75,7 +81,9 @@ Section C12.
       length (l_out (loc pr)) = q.
   Proof.
     intros ls P q Hq [_ Hok] H0 i pr Hi.
-    exact (run_good St G steq misfit expo draw trans sched I exchange steq_refl steq_sound trans_own ls P q Hq Hok H0 i pr Hi).
+    assert (cap1 : room msg cap [] = true).
+    { unfold room. destruct cap as [c|]; [|reflexivity]. apply Nat.ltb_lt. simpl. exact cap_ge_1. }
+    exact (run_good St G steq misfit expo draw trans sched I exchange cap cap1 steq_refl steq_sound trans_own ls P q Hq Hok H0 i pr Hi).
   Qed.
 End C12.
 
@@ -97,7 +105,7 @@ Proof. vm_compute. reflexivity. Qed.
 Example c12_short_schedule_stuck :
   let c := ex_case [[(0, 2)]; [(1, 0)]] in
   c12_guard c = false /\
-  exists k u, gpath _ nat (step _ _) (the_net c) k u /\ gterminal _ nat (step _ _) u /\ all_done _ _ u = false.
+  exists k u, gpath _ nat (step _ _ (Some 1)) (the_net c) k u /\ gterminal _ nat (step _ _ (Some 1)) u /\ all_done _ _ u = false.
 Proof.
   split; [vm_compute; reflexivity|].
   exists (snd (net_run (ex_case [[(0, 2)]; [(1, 0)]]))), (fst (net_run (ex_case [[(0, 2)]; [(1, 0)]]))).
